@@ -17,7 +17,7 @@ PairFamily(acct) == {
   <<NoDec, NoStr>>, <<Some(R(0, "bad_empty")), Some("")>>, <<Some(R(2500, "plain")), NoStr>>, <<NoDec, Some(acct)>>,
   <<Some(R(0, "bad_word")), Some(acct)>>, <<Some(R(2500, "plain")), Some("BAD")>>, <<Some(R(2500, "plain")), Some(acct)>>,
   <<Some(R(2500, "t0")), Some(acct)>>, <<Some(R(0, "bad_empty")), Some(acct)>>, <<Some(R(2500, "plain")), Some("")>>,
-  <<Some(R(-2500, "plain")), Some(acct)>>, <<Some(R(2500, "bad_space")), Some(acct)>>, <<Some(R(2500, "bad_tspace")), Some(acct)>> }
+  <<Some(R(-2500, "plain")), Some(acct)>>, <<Some(Dec(1250, "plain")), Some(acct)>>, <<Some(Dec(625, "t0")), Some(acct)>>, <<Some(R(2500, "bad_space")), Some(acct)>>, <<Some(R(2500, "bad_tspace")), Some(acct)>> }
 
 Msg(name, base, quotes, approvers, executors, ap, bp, prec, inc) ==
   [name |-> name, base |-> base, convs |-> <<"cv1">>, quotes |-> quotes, approvers |-> approvers, executors |-> executors,
